@@ -159,3 +159,24 @@ Proof.
           [subst n; simpl in Hw; try discriminate Hw; destruct Ha as [Ha|Ha]; inversion Ha | ]).
   contradiction Hn.
 Qed.
+
+(* the layout the REPAIRED insertFeedback (fixes/C18-F1.diff: the stop marker of a same-column feedback goes into the column
+   before the sink, like every other feedback) builds for the same block  Reg(d, q, enable=q) : *)
+(*   sym 0 KIn d for=('in', 0) cell=(0, 0) *)
+(*   sym 1 KFbStop fZ2 for=None cell=(1, 0) *)
+(*   sym 2 KInst r for=('ch', 0) cell=(0, 1) *)
+(*   sym 3 KPass pt1 for=None cell=(1, 1) *)
+(*   sym 4 KOut q for=('out', 0) cell=(0, 2) *)
+(*   sym 5 KFbStart fA0 for=None cell=(1, 2) *)
+(*   net 0 w0 /HWSystem[HWSystem][d]: d.d -> r.d *)
+(*   net 1 w1 /HWSystem[HWSystem][q]: r.q -> q.q *)
+(*   net 2 w1 /HWSystem[HWSystem][q]: r.q -> fA0.None *)
+(*   net 3 w1 /HWSystem[HWSystem][q]: pt1.None -> fA0.None *)
+(*   net 4 w1 /HWSystem[HWSystem][q]: fZ2.None -> pt1.None *)
+(*   net 5 w1 /HWSystem[HWSystem][q]: fZ2.None -> r.e *)
+Definition ex_selfloop_repaired_l : layout :=
+  (Lay [Sym 0 KIn (Some (EIn 0)) 0%Z 0%Z 0%Z 15%Z 15%Z 20%Z; Sym 1 KFbStop None 1%Z 0%Z 0%Z 110%Z 20%Z 20%Z; Sym 2 KInst (Some (EChild 0)) 0%Z 1%Z 60%Z 15%Z 65%Z 80%Z; Sym 3 KPass None 1%Z 1%Z 60%Z 110%Z 20%Z 20%Z; Sym 4 KOut (Some (EOut 0)) 0%Z 2%Z 155%Z 15%Z 15%Z 20%Z; Sym 5 KFbStart None 1%Z 2%Z 155%Z 110%Z 20%Z 20%Z] [Net 0 (End 0 (Some (Pin (EIn 0) true 0))) (End 2 (Some (Pin (EChild 0) false 0))); Net 1 (End 2 (Some (Pin (EChild 0) true 0))) (End 4 (Some (Pin (EOut 0) false 0))); Net 1 (End 2 (Some (Pin (EChild 0) true 0))) (End 5 None); Net 1 (End 3 None) (End 5 None); Net 1 (End 1 None) (End 3 None); Net 1 (End 1 None) (End 2 (Some (Pin (EChild 0) false 1)))]).
+Lemma ex_selfloop_repaired_accepted : schem_ok ex_selfloop_c ex_selfloop_repaired_l = true.
+Proof. vm_compute. reflexivity. Qed.
+Lemma ex_selfloop_repaired_SchemOK : SchemOK ex_selfloop_c ex_selfloop_repaired_l.
+Proof. apply schem_ok_sound. exact ex_selfloop_repaired_accepted. Qed.
